@@ -438,7 +438,9 @@ pub fn loop_body(rng: &mut Rng, max: u64, allow_nested: bool) -> Vec<Op1> {
 pub fn random_join_side(rng: &mut Rng) -> Op1 {
     let mut side: Vec<P> = vec![];
     for k in 0..9 { if rng.chance(1, 2) { side.push((k, rng.range(0, 40))); } }
-    Op1::JoinSide(*rng.pick(&[JVar::Inner, JVar::Left, JVar::Outer, JVar::Outer]), *rng.pick(&[JLocal::Hash, JLocal::SortMerge, JLocal::SortMerge]), side)
+    let (v, lo) = (*rng.pick(&[JVar::Inner, JVar::Left, JVar::Outer, JVar::Outer]), *rng.pick(&[JLocal::Hash, JLocal::SortMerge, JLocal::SortMerge]));
+    // one in three has the side input as the LEFT operand
+    if rng.chance(1, 3) { Op1::JoinSideL(v, lo, side) } else { Op1::JoinSide(v, lo, side) }
 }
 
 fn chain(rng: &mut Rng, mut p: Pipe, max: u64) -> Pipe {
